@@ -76,6 +76,75 @@ theorem keptSigmas_length_le (chi : Option Nat) (tol : Option Rat) (sig : List R
       | (simp only [List.length_take]; exact Nat.le_trans (Nat.min_le_right _ _) (h1 _))
       | (simp only [List.length_take]; exact Nat.min_le_right _ _)
 
+/-- NO singular value survives `s = s/s[0]; s = s[s > tol] if tol; s = s[:chi] if chi` exactly when there was none to
+    begin with, or tol is on and no normalised value exceeds it (σ/σ₀ ≤ 1, so: tol ≥ 1, or σ₀ < 0 never met in
+    practice); chi alone never empties the list -/
+theorem keptSigmas_length_eq_zero_iff (chi : Option Nat) (tol : Option Rat) (sig : List Rat) :
+    (keptSigmas chi tol sig).length = 0 ↔
+      sig = [] ∨ ∃ t, tol = some t ∧ t ≠ 0 ∧ ∀ x ∈ sig, ¬ t < x / sig.headD 0 := by
+  have htake : ∀ (c : Nat) (l : List Rat), c ≠ 0 → ((l.take c).length = 0 ↔ l = []) := by
+    intro c l hc
+    rw [List.length_take]
+    cases l with
+    | nil => simp
+    | cons a l => simp only [List.length_cons, reduceCtorEq, iff_false]; omega
+  have hfil : ∀ t : Rat, (sig.filter (fun x => decide (t < x / sig.headD 0))) = [] ↔
+      ∀ x ∈ sig, ¬ t < x / sig.headD 0 := by
+    intro t
+    rw [List.filter_eq_nil_iff]
+    constructor
+    · intro h x hx; simpa using h x hx
+    · intro h x hx; simpa using h x hx
+  have hnil : sig = [] → ∀ t : Rat, ∀ x ∈ sig, ¬ t < x / sig.headD 0 := by
+    intro h t x hx; rw [h] at hx; cases hx
+  unfold keptSigmas
+  cases tol with
+  | none =>
+    cases chi with
+    | none => simp [List.length_eq_zero_iff]
+    | some c =>
+      by_cases hc : c = 0
+      · simp [hc, List.length_eq_zero_iff]
+      · simp only [bne_iff_ne, ne_eq, hc, not_false_eq_true, ↓reduceIte, htake c _ hc]
+        simp
+  | some t =>
+    by_cases ht : t = 0
+    · cases chi with
+      | none => simp [ht, List.length_eq_zero_iff]
+      | some c =>
+        by_cases hc : c = 0
+        · simp [ht, hc, List.length_eq_zero_iff]
+        · simp only [ht, bne_self_eq_false, Bool.false_eq_true, ↓reduceIte, bne_iff_ne, ne_eq, hc,
+            not_false_eq_true, htake c _ hc]
+          simp
+    · have key : (sig.filter (fun x => decide (t < x / sig.headD 0))) = [] ↔
+          (sig = [] ∨ ∃ t', some t = some t' ∧ t' ≠ 0 ∧ ∀ x ∈ sig, ¬ t' < x / sig.headD 0) := by
+        rw [hfil]
+        constructor
+        · intro h; exact Or.inr ⟨t, rfl, ht, h⟩
+        · rintro (h | ⟨t', ht', _, h⟩)
+          · exact hnil h t
+          · cases ht'; exact h
+      cases chi with
+      | none =>
+        simp only [bne_iff_ne, ne_eq, ht, not_false_eq_true, ↓reduceIte, List.length_eq_zero_iff]
+        exact key
+      | some c =>
+        by_cases hc : c = 0
+        · simp only [bne_iff_ne, ne_eq, ht, not_false_eq_true, ↓reduceIte, hc, not_true_eq_false,
+            List.length_eq_zero_iff]
+          exact key
+        · simp only [bne_iff_ne, ne_eq, ht, not_false_eq_true, ↓reduceIte, hc, htake c _ hc]
+          exact key
+
+/-- with tol off (None or 0) a non-empty list of singular values never loses all its entries -/
+theorem keptSigmas_length_ne_zero_of_tol_off (chi : Option Nat) (tol : Option Rat) (sig : List Rat)
+    (htol : optOnRat tol = false) (hsig : sig ≠ []) : (keptSigmas chi tol sig).length ≠ 0 := by
+  intro h
+  rcases (keptSigmas_length_eq_zero_iff chi tol sig).mp h with h | ⟨t, rfl, ht, _⟩
+  · exact hsig h
+  · simp [optOnRat, ht] at htol
+
 theorem stepDecide_keep_le {p : Params} {q : Bool} {rows cols : Nat} {o : Orc} {k : Nat}
     (h : stepDecide p q rows cols o = .ok (.keep k)) : k ≤ min rows cols := by
   unfold stepDecide at h
@@ -91,7 +160,9 @@ theorem stepDecide_keep_le {p : Params} {q : Bool} {rows cols : Nat} {o : Orc} {
       · cases h
       · split at h
         · cases h
-        · cases h; exact Nat.min_le_left _ _
+        · split at h
+          · cases h
+          · cases h; exact Nat.min_le_left _ _
   · cases h
 
 /-- a QR step keeps the full rank min(rows, cols): no truncation -/
@@ -118,15 +189,18 @@ theorem stepDecide_svd_le_chi {p : Params} {rows cols : Nat} {o : Orc} {k c : Na
     · cases h
     · split at h
       · cases h
-      · cases h
-        rw [hc]
-        exact Nat.le_trans (Nat.min_le_right _ _) (keptSigmas_length_le_chi hc0 _ _)
+      · split at h
+        · cases h
+        · cases h
+          rw [hc]
+          exact Nat.le_trans (Nat.min_le_right _ _) (keptSigmas_length_le_chi hc0 _ _)
   · cases h
 
 /-- an SVD step keeps exactly min(rows, cols, #kept singular values) -/
 theorem stepDecide_svd_keep {p : Params} {rows cols : Nat} {o : Orc} {k : Nat}
     (h : stepDecide p false rows cols o = .ok (.keep k)) :
-    ∃ sig, o = .svd sig ∧ k = min (min rows cols) (keptSigmas p.chi p.tol sig).length := by
+    ∃ sig, o = .svd sig ∧ k = min (min rows cols) (keptSigmas p.chi p.tol sig).length ∧
+      (keptSigmas p.chi p.tol sig).length ≠ 0 := by
   unfold stepDecide at h
   split at h
   · simp at h
@@ -136,8 +210,26 @@ theorem stepDecide_svd_keep {p : Params} {rows cols : Nat} {o : Orc} {k : Nat}
     · cases h
     · split at h
       · cases h
-      · cases h; exact ⟨_, rfl, rfl⟩
+      · split at h
+        · cases h
+        · rename_i hne
+          cases h; exact ⟨_, rfl, rfl, hne⟩
   · cases h
+
+/-- an SVD step raises the zero flag exactly when σ₀ = 0 or no singular value is kept (tol discards them all) -/
+theorem stepDecide_svd_zero_iff {p : Params} {rows cols : Nat} {sig : List Rat} :
+    stepDecide p false rows cols (.svd sig) = .ok .zero ↔
+      sig ≠ [] ∧ (sig.headD 0 = 0 ∨ (keptSigmas p.chi p.tol sig).length = 0) := by
+  cases sig with
+  | nil => simp [stepDecide]
+  | cons s0 rest =>
+    simp only [stepDecide, Bool.false_eq_true, ↓reduceIte, ne_eq, reduceCtorEq, not_false_eq_true, List.headD_cons,
+      true_and]
+    by_cases h0 : s0 = 0
+    · simp [h0]
+    · by_cases hk : (keptSigmas p.chi p.tol (s0 :: rest)).length = 0
+      · simp [h0, hk]
+      · simp [h0, hk]
 
 /-! ### the sweep: shapes -/
 
@@ -259,6 +351,38 @@ theorem sweep_trace_spec (p : Params) (mk : Nat → Bool) :
           exact stepDecide_svd_le_chi hc hc0 hk
       · obtain ⟨h1, h2, h3⟩ := ih _ _ _ _ hr' st hst
         refine ⟨by omega, by simp only [List.length_cons]; omega, h3⟩
+
+/-- a step that does not raise the zero flag keeps at least rank 1 (for a non-empty matrix): QR keeps min(rows, cols),
+    SVD keeps min(rows, cols, #kept) with #kept ≠ 0 — the tol that discards everything is a zero exit -/
+theorem stepDecide_keep_pos {p : Params} {q : Bool} {rows cols : Nat} {o : Orc} {k : Nat}
+    (h : stepDecide p q rows cols o = .ok (.keep k)) (hr : 0 < rows) (hc : 0 < cols) : 0 < k := by
+  cases q with
+  | true => rw [stepDecide_qr_keep h]; omega
+  | false =>
+    obtain ⟨sig, _, hk, hne⟩ := stepDecide_svd_keep h
+    rw [hk]; omega
+
+theorem sweep_trace_pos (p : Params) (mk : Nat → Bool) :
+    ∀ (more : List Shape) (row : Nat) (cur : Shape) (orc : List Orc) (r : SweepRes),
+      sweep p mk row cur more orc = .ok r →
+      ∀ st ∈ r.trace, ∀ k, st.kept = some k → 0 < st.rows → 0 < st.cols → 0 < k := by
+  intro more
+  induction more with
+  | nil =>
+    intro row cur orc r h st hst
+    rcases sweep_nil_ok h with ⟨_, rfl⟩ | ⟨_, x, orc', _, ⟨_, rfl⟩ | ⟨_, rfl⟩⟩ <;> simp at hst
+  | cons nxt more ih =>
+    intro row cur orc r h st hst
+    obtain ⟨o, orc', rfl, ⟨_, rfl⟩ | ⟨k, r', hk, hb, hr', rfl⟩⟩ := sweep_cons_ok h
+    · simp only [List.mem_singleton] at hst
+      subst hst
+      intro k hk; cases hk
+    · rcases List.mem_cons.mp hst with rfl | hst
+      · intro k' hk' hrows hcols
+        simp only [Option.some.injEq] at hk'
+        subst hk'
+        exact stepDecide_keep_pos hk hrows hcols
+      · exact ih _ _ _ _ hr' st hst
 
 /-- the zero flag ends the sweep: a step with the flag is the last step, and the flow is `zero` -/
 theorem sweep_zero_last (p : Params) (mk : Nat → Bool) :
